@@ -248,6 +248,9 @@ func solveObligation(ob *Obligation, timeoutS int) {
 	if short < 3 {
 		short = 3
 	}
+	if len(parts) >= 8 && short > 3 {
+		short = 3 // a goal expanded from bounded quantifiers: the pieces are what the solvers are good at
+	}
 	r := Solve(ob.Query(), short, true)
 	if r.Status == "unsat" || r.Status == "sat" {
 		ob.Result = r
